@@ -18,5 +18,7 @@ PY
   cat /repo/go.sum /repo/schema/go.sum /repo/cmd/cdi/go.sum /repo/cmd/validate/go.sum /repo/specs-go/go.sum 2>/dev/null | sort -u > go.sum
   [ -f go.sum.extra ] && cat go.sum.extra >> go.sum
   go build -tags verif -o bin/vharness ./cmd/vharness
+  # the race-detector build used by C12 (cgo + gcc are present); not fatal for the other checks if it fails
+  go build -race -tags verif -o bin/vharness-race ./cmd/vharness || echo "warning: race build failed"
 )
 echo setup ok
